@@ -157,7 +157,7 @@ pub fn from_string_inner(ast: &DeriveInput) -> syn::Result<TokenStream> {
     } else {
         quote! {
             use #strum_module_path::_private_phf_reexport_for_macro_if_phf_feature as phf;
-            static PHF: phf::Map<&'static str, #name> = phf::phf_map! {
+            const PHF: phf::Map<&'static str, #name> = phf::phf_map! {
                 #(#phf_exact_match_arms)*
             };
             if let ::core::option::Option::Some(value) = PHF.get(s).cloned() {
